@@ -26,7 +26,7 @@ pub fn property() -> Property {
         parts: vec![
             Part {
                 name: "counter",
-                quick: 20_000,
+                quick: 60_000,
                 thorough: 600_000,
                 single_shard: false, supplementary: false,
                 run: |cfg| run_part(cfg, (0..4900u16, proptest::collection::vec(0..4u8, 1..60), any::<u16>(), any::<u16>()), |(base, steps, at, win)| counter_case(*base, steps, *at, *win), check_counter),
@@ -34,7 +34,7 @@ pub fn property() -> Property {
             },
             Part {
                 name: "game_histories",
-                quick: 2_000,
+                quick: 6_000,
                 thorough: 60_000,
                 single_shard: false, supplementary: false,
                 run: |cfg| run_part(cfg, gen::raw_playout(80), |r| shuffle_game(r), check_game_history),
@@ -42,7 +42,7 @@ pub fn property() -> Property {
             },
             Part {
                 name: "engine",
-                quick: 500,
+                quick: 800,
                 thorough: 15_000,
                 single_shard: false, supplementary: false,
                 run: |cfg| run_part(cfg, (gen::raw_pos(60), 0..6u8, any::<u16>()), |(r, k, x)| rep_case(r, *k, *x), check_engine_rep),
@@ -50,7 +50,7 @@ pub fn property() -> Property {
             },
             Part {
                 name: "forced_repetition",
-                quick: 3_000,
+                quick: 6_000,
                 thorough: 100_000,
                 single_shard: false, supplementary: false,
                 run: |cfg| run_part(cfg, (prop_oneof![3 => gen::raw_synth_profiles(6, 7).prop_map(gen::RawPos::Synth), 1 => gen::raw_pos_endgames()], 4..=6u32), |(r, d)| forced_case(r, *d), check_forced),
@@ -58,7 +58,7 @@ pub fn property() -> Property {
             },
             Part {
                 name: "fifty",
-                quick: 500,
+                quick: 800,
                 thorough: 15_000,
                 single_shard: false, supplementary: false,
                 run: |cfg| run_part(cfg, (gen::raw_pos_endgames(), 0..151u32, 1..=2u32), |(r, h, d)| fifty_case(r, *h, *d), check_fifty),
